@@ -44,8 +44,11 @@ def load_module(prop):
 def _run_one(args):
     idx, item = args
     col = Collector(_MODULE.PROP)
+    t_item = time.time()
     try:
         _MODULE.run_item(item, col, _TIER)
+        if os.environ.get("VERIF_ITEM_TIMES"):
+            print(f"ITEM-TIME {time.time() - t_item:.1f}s {json.dumps(item, sort_keys=True)[:200]}", file=sys.stderr, flush=True)
     except Exception as exc:  # noqa: BLE001
         from .explore import NondeterminismError
 
@@ -183,6 +186,9 @@ def main(argv=None):
         items = items[: args.max_items]
     order = list(range(len(items)))
     random.Random(seed).shuffle(order)
+    if hasattr(mod, "COST"):
+        # longest items first (ties stay in the shuffled order): with few, unequal items the last one started decides the wall time
+        order.sort(key=lambda i: -float(mod.COST(items[i])))
     work = [(i, items[i]) for i in order]
     jobs = args.jobs or min(16, os.cpu_count() or 1)
     total = Collector(prop)
